@@ -143,6 +143,9 @@ func (g *c14gen) paramType(allowTrue bool) string {
 func (g *c14gen) params() string {
 	n := g.r.Intn(6)
 	if n == 0 {
+		if g.r.Intn(3) == 0 {
+			return "flags:# " // a flags word nothing depends on yet (room for later layers): still a word on the wire
+		}
 		return ""
 	}
 	var ps []string
@@ -240,7 +243,11 @@ func genSchemaText(r *rand.Rand, plainComments bool) string {
 				if r.Intn(3) == 0 {
 					sb.WriteString("// @enum one member\n")
 				}
-				sb.WriteString(c14line(g.qualified(false), "", d.name, r) + "\n")
+				ep := ""
+				if r.Intn(5) == 0 {
+					ep = "flags:# " // one member of an otherwise field-less type carries a bare flags word: not an enumeration
+				}
+				sb.WriteString(c14line(g.qualified(false), ep, d.name, r) + "\n")
 			}
 		case "single":
 			sb.WriteString(c14line(g.qualified(false), g.params(), d.name, r) + "\n")
@@ -343,6 +350,8 @@ func c14(c *wk.Ctx) {
 		c14line("resultOnly", "", "ResultOnly", r0) + "\n" + c14line("resultOther", "x:int ", "ResultOnly", r0) + "\n---functions---\n" + c14line("getIt", "flags:# a:flags.0?true ", "ResultOnly", r0) + "\n" + c14line("getThem", "", "Vector<ResultOnly>", r0) + "\n",
 		c14line("a.one", "", "a.Kind", r0) + "\n" + c14line("b.one", "", "b.Kind", r0) + "\n" + c14line("a.two", "k:b.Kind ", "a.Kind", r0) + "\n---functions---\n" + c14line("a.get", "k:a.Kind ", "b.Kind", r0) + "\n" + c14line("b.get", "k:b.Kind ", "a.Kind", r0) + "\n",
 		"---functions---\n---types---\n" + c14line("lateType", "n:int ", "LateType", r0) + "\n",
+		c14line("plainKind", "", "Kind", r0) + "\n" + c14line("flaggedKind", "flags:# ", "Kind", r0) + "\n" + c14line("otherKind", "", "Kind", r0) + "\n" + c14line("holder", "k:Kind ks:Vector<Kind> ", "Holder", r0) + "\n",
+		c14line("onlyFlags", "flags:# ", "OnlyFlags", r0) + "\n---functions---\n" + c14line("callFlags", "flags:# ", "OnlyFlags", r0) + "\n",
 	}
 	for _, text := range edge {
 		if c.Mine(idx) {
